@@ -240,11 +240,9 @@ def run(rep: Report, tier: str, seed: int) -> None:
                 rep.case(f"{label}|{nc}")
                 if obs.outcome == "outside_domain":
                     rep.outside_domain += 1
-                else:
-                    rep.extra["crashed_units(C01)"] = rep.extra.get("crashed_units(C01)", 0) + 1
-                    rep.extra.setdefault("crash_examples", [])
-                    if len(rep.extra["crash_examples"]) < 8:
-                        rep.extra["crash_examples"].append({"unit": label, "exc": obs.crash_sig() + ": " + obs.exc_msg[:120]})
+                elif len(us) == 1:
+                    # (groups are bisected by run_packed: a crash is attributed to the single unit that causes it)
+                    rep.violation("run-completes", f"run:{obs.outcome}:{obs.crash_sig()}|{feat.split('|')[0]}|{nc}", {"unit": label, "exc": obs.exc_type + ": " + obs.exc_msg, "tb": obs.exc_tb[-500:]}, files={f"{PKG}/__init__.py": "", **fs}, src_rel=PKG, opts=opts, obs=obs)
             return
         idx = index_stubs(obs)
         declared_in: dict[str, set[str]] = {}
